@@ -171,6 +171,9 @@ pub struct Death {
 pub struct NodeBins {
     pub debug: PathBuf,
     pub release: PathBuf,
+    /// clock shim to preload into the node (None: not built, the node then only has the
+    /// shadowed clock imports of the guarded hook)
+    pub shim: Option<PathBuf>,
 }
 
 impl NodeBins {
@@ -196,7 +199,11 @@ pub struct Node {
 
 impl Node {
     pub fn spawn(bins: &NodeBins, build: Build) -> std::io::Result<Node> {
-        let mut child = Command::new(bins.path(build))
+        let mut cmd = Command::new(bins.path(build));
+        if let Some(shim) = &bins.shim {
+            cmd.env("LD_PRELOAD", shim);
+        }
+        let mut child = cmd
             .arg("--verif-driver")
             .env("RUST_BACKTRACE", "0")
             .stdin(Stdio::piped())
@@ -355,6 +362,10 @@ impl Node {
 
     pub fn set_clock(&mut self, ms: u64) -> Result<(), Death> {
         self.send(&format!("T {}", ms))
+    }
+
+    pub fn set_mono(&mut self, us: u64) -> Result<(), Death> {
+        self.send(&format!("M {}", us))
     }
 
     pub fn frame(&mut self, f: &[u8]) -> Result<Obs, Death> {
